@@ -5,6 +5,7 @@ mod conc;
 mod consumers;
 mod crash;
 mod creds;
+mod frames;
 mod journal;
 mod msgs;
 mod node;
@@ -32,6 +33,7 @@ fn dispatch_worker(wa: WorkerArgs) -> i32 {
         "catalogue" => worker_main(&catalogue::Catalogue, wa),
         "wire" => worker_main(&wire::Wire, wa),
         "creds" => worker_main(&creds::Creds, wa),
+        "frames" => worker_main(&frames::Frames, wa),
         "sdkclients" => worker_main(&sdkclients::SdkClients, wa),
         "conc" => worker_main(&conc::Conc, wa),
         "crash" => worker_main(&crash::Crash, wa),
@@ -56,6 +58,7 @@ fn dispatch_replay(check: &str, case: &Value, p: &Params) -> common::Outcome {
         "catalogue" => replay_case(&catalogue::Catalogue, case, p),
         "wire" => replay_case(&wire::Wire, case, p),
         "creds" => replay_case(&creds::Creds, case, p),
+        "frames" => replay_case(&frames::Frames, case, p),
         "sdkclients" => replay_case(&sdkclients::SdkClients, case, p),
         "conc" => replay_case(&conc::Conc, case, p),
         "crash" => replay_case(&crash::Crash, case, p),
